@@ -958,6 +958,9 @@ cdef class CPUDomainManager(DomainManagerBase):
         for pa_wrapper in pa_wrappers:
             h = pa_wrapper.h
             h.update_min_max()
+            if h.length == 0:
+                # The cached min/max of an empty array are zero.
+                continue
 
             _hmax = h.maximum
             _hmin = h.minimum
@@ -1532,6 +1535,11 @@ cdef class NNPS(NNPSBase):
             y = pa_wrapper.y
             z = pa_wrapper.z
 
+            if x.length == 0:
+                # The cached min/max of an empty array are zero, which is
+                # not a particle position.
+                continue
+
             # find min and max of variables
             x.update_min_max()
             y.update_min_max()
@@ -1544,6 +1552,10 @@ cdef class NNPS(NNPSBase):
             xmin = fmin(x.minimum, xmin)
             ymin = fmin(y.minimum, ymin)
             zmin = fmin(z.minimum, zmin)
+
+        if xmax < xmin:
+            # No particles at all.
+            xmin = ymin = zmin = xmax = ymax = zmax = 0.0
 
         # Add a small offset to the limits.
         lx, ly, lz = xmax - xmin, ymax - ymin, zmax - zmin
